@@ -259,7 +259,7 @@ static void j_ents(const Ent* es, int n)
   fputc(']', g_out);
 }
 
-struct Obs { long long r, wt, at, dwt, dat, dct; Ent ents[64]; int nents; String res; int root; };
+struct Obs { long long r, wt, at, dwt, dat, dct, lwt, lat, lct; Ent ents[64]; int nents; String res; int root; };
 static void x_log(const char* op, const Arg* p, const Arg* q, long k, long long m, const Obs* o)
 {
   j_begin(op);
@@ -269,6 +269,7 @@ static void x_log(const char* op, const Arg* p, const Arg* q, long k, long long 
   j_int("m", m);
   j_int("r", o->r);
   j_int("wt", o->wt); j_int("at", o->at); j_int("dwt", o->dwt); j_int("dat", o->dat); j_int("dct", o->dct);
+  j_int("lwt", o->lwt); j_int("lat", o->lat); j_int("lct", o->lct);
   j_ents(o->ents, o->nents);
   j_bytes("res", (const unsigned char*)(const char*)o->res, (long)o->res.length());
   j_bytes("root", (const unsigned char*)g_root, o->root ? (long)strlen(g_root) : 0);
@@ -339,7 +340,7 @@ void drv_apply(const char* op)
   Arg p, q; p.none = 1; p.n = 0; p.s[0] = 0; q.none = 0; q.n = 0; q.s[0] = 0;
   long k = 0; long long m = 0;
   static Obs o;
-  o.r = 0; o.wt = o.at = -1; o.dwt = o.dat = o.dct = 0; o.nents = 0; o.res = String(); o.root = 0;
+  o.r = 0; o.wt = o.at = -1; o.dwt = o.dat = o.dct = 0; o.lwt = o.lat = o.lct = 0; o.nents = 0; o.res = String(); o.root = 0;
   int kind;     // 1 set-up, 2 mutating under test, 3 query
   if(!strcmp(op, "fsmode")) { k = tok_int(); kind = 0; }
   else if(!strcmp(op, "mkdir") || !strcmp(op, "rm")) { tok_arg(&p); kind = 1; }
@@ -415,6 +416,8 @@ void drv_apply(const char* op)
       o.wt = clampv(t.writeTime); o.at = clampv(t.accessTime);
       if(stat(p.s, &st) != 0) o.dwt = o.dat = o.dct = 999999999;       // success reported for something stat() does not find
       else { o.dwt = clampd(t.writeTime - ms_of(st.st_mtim)); o.dat = clampd(t.accessTime - ms_of(st.st_atim)); o.dct = clampd(t.creationTime - ms_of(st.st_ctim)); }
+      if(lstat(p.s, &st) != 0) o.lwt = o.lat = o.lct = 999999999;
+      else { o.lwt = clampd(t.writeTime - ms_of(st.st_mtim)); o.lat = clampd(t.accessTime - ms_of(st.st_atim)); o.lct = clampd(t.creationTime - ms_of(st.st_ctim)); }
     }
   }
   else if(!strcmp(op, "isexe")) o.r = File::isExecutable(sp) ? 1 : 0;
